@@ -360,6 +360,82 @@ def audit_builds(rng, tier):
     return out
 
 
+# ---------------------------------------------------------------- state and call history (interp.seq)
+def p2pk_lock(k):
+    return (push(bytes.fromhex(PUBS[k])) + b"\xac").hex()
+
+
+SEQ_PRE = ("interp.seq", [lz_tx(841), "0", "5000.%s,n.n" % p2pk_lock(KEYS[1]), KEYS[1],
+                          "G65.5000.%s,p65.5000.%s" % (p2pk_lock(KEYS[1]), p2pk_lock(KEYS[1]))])
+
+
+def seq_cases(rng, tier, built, pre):
+    """observe -> mutate -> observe on ONE Transaction / Interpreter object; explicit arguments against conflicting stored
+    annotations; boolean entry points on Ok / failing / unparseable inputs"""
+    out = []
+    S = lambda tx, idx, ext, key, steps: out.append(("interp.seq", [tx, str(idx), ext, key, ",".join(steps)]))
+
+    def pick(kind, flags):
+        for b in built:
+            a = b[4]
+            if b[0] == kind and a[6] == "_" and a[7] == "0" and a[1].startswith(lz_tx(0)[:40]) and int(a[5].split(",")[0].split(".")[1]) in flags \
+                    and len(a[5].split(",")[0].split(".")) == 2:
+                return b
+        return None
+    for kind, flags in [("p2pk", G.FORKID_FLAGS), ("p2pkh", G.LEGACY_FLAGS), ("p2pkh", [0x41]), ("ms", FLAGS)]:
+        b = pick(kind, flags)
+        if b is None:
+            continue
+        _, tx, idx, ext, a = b
+        ent, v, lock = ext_fields(ext, idx)
+        L = lock.hex()
+        key = a[4].split(",")[0]
+        fl = int(a[5].split(",")[0].split(".")[1])
+        t = parse_tx(bytes.fromhex(tx))
+        other = (idx + 1) % len(t["ins"])
+        unl = t["ins"][idx]["scr"].hex()
+        oval = t["outs"][0]["val"]
+        # observe - mutate - observe, both orders, clone and round trip
+        S(tx, idx, ext, key, ["r", "v%d" % (v + 1), "r", "v%d" % v, "r"])
+        S(tx, idx, ext, key, ["v%d" % (v + 1), "r", "c", "r", "v%d" % v, "s", "r"])
+        S(tx, idx, ext, key, ["r", "c", "r", "s", "r"])
+        S(tx, idx, ext, key, ["r", "o0.%d" % (oval + 1), "r", "o0.%d" % oval, "r"])
+        S(tx, idx, ext, key, ["p%d.%d.%s" % (fl, v, L), "a5", "r", "p%d.%d.%s" % (fl, v, L)])
+        S(tx, idx, ext, key, ["r", "q%d.5" % other, "r", "L7", "r", "V9", "r"])
+        S(tx, idx, ext, key, ["r", "l51", "r", "l" + L, "r", "u51", "r", "u" + unl, "r"])
+        # the kept interpreter: its own copy of the transaction; stepped, then run, then run again
+        S(tx, idx, ext, key, ["i", "v%d" % (v + 1), "R", "r", "R"])
+        S(tx, idx, ext, key, ["i", "n1", "R", "R", "n5", "R"])
+        S(tx, idx, ext, key, ["n3", "R", "i", "n%d" % rng.randrange(2, 9), "l51", "R", "i", "R"])
+        if kind == "ms":
+            continue
+        # explicit value / subscript of Transaction::sign against conflicting stored annotations, and their empty / zero values
+        g = "G" if kind == "p2pk" else "K"
+        S(tx, idx, ext, key, ["%s%d.%d.%s" % (g, fl, v, L), "r"])
+        S(tx, idx, ext, key, ["v%d" % (v + 5), "%s%d.%d.%s" % (g, fl, v, L), "r", "v%d" % v, "r"])
+        S(tx, idx, ext, key, ["%s%d.0.%s" % (g, fl, L), "r", "%s%d.%d." % (g, fl, v), "r", "%s%d.%d.%s" % (g, fl, v, L), "r"])
+        S(tx, idx, ext, key, ["l51", "%s%d.%d.%s" % (g, fl, v, L), "r", "l" + L, "r"])
+        S(tx, idx, ext, key, ["g%d.%d.%s" % (fl, v, L), "g%d.%d.%s" % (fl, v + 1, L), "v%d" % (v + 1), "g%d.%d.%s" % (fl, v, L),
+                              "p%d.%d.%s" % (fl, v, L), "p%d.0." % fl])
+    # boolean entry points: Transaction::verify / _verify on a matching triple, a wrong preimage, a wrong key, high S,
+    # an unparseable signature, an unparseable key
+    for (op, args), res in (pre or []):
+        if op == "interp.seq" and res and res.startswith("OK:"):
+            o = res[3:].split(";")[0].split("/")
+            if len(o) == 2 and o[1] != "E" and not o[1].startswith("#"):
+                sg, prei = o[0], o[1]
+                pk = PUBS[KEYS[1]]
+                r, s_, fl = der_parts(bytes.fromhex(sg))
+                hs = mk_sig(int.from_bytes(r, "big"), SECP_N - int.from_bytes(s_, "big"), fl).hex()
+                tx0, ext0 = args[0], args[2]
+                for trip in [(sg, pk, prei), (sg, pk, prei[:-2] + "00"), (sg, pk, ""), (sg, PUBS[KEYS[2]], prei), (hs, pk, prei),
+                             (sg[:-2], pk, prei), (sg + "41", pk, prei), (sg[:-2] + "05", pk, prei), ("", pk, prei),
+                             (sg, "02" + "00" * 31 + "05", prei), (sg, "", prei), (sg, pk[:-2], prei)]:
+                    S(tx0, 0, ext0, KEYS[1], ["t%s.%s.%s" % trip])
+                S(tx0, 0, ext0, KEYS[1], ["t%s.%s.%s" % (sg, pk, prei), "v7", "t%s.%s.%s" % (sg, pk, prei), "t%s.%s.%s" % (hs, pk, prei)])
+    return out
+
+
 ALWAYS = set()       # builds that are always in the compared stream
 
 
@@ -367,6 +443,7 @@ def presample(rng, tier):
     cases = short_sig_builds(rng, tier) + two_check_builds(rng, tier) + audit_builds(rng, tier)
     ALWAYS.clear()
     ALWAYS.update(tuple(c[1]) for c in cases)
+    cases.append(SEQ_PRE)
     reps = 1 if tier == "quick" else 6
     for _ in range(reps):
         # every flag once per family
@@ -552,9 +629,10 @@ def generate(rng, tier, pre=None):
     cases = []
     built = []
     for (op, args), out in (pre or []):
-        if out and out.startswith("OK:"):
+        if op == "spend.build" and out and out.startswith("OK:"):
             f = out[3:].split(";")
             built.append((args[0], f[0], int(args[2]), f[1], args))
+    seq = seq_cases(rng, tier, built, pre)
     # 0. the assembling itself (Transaction::sign, script builders): the model reproduces the signed transaction byte for byte
     step = 3 if tier == "quick" else 1
     for k, ((op, args), out) in enumerate(pre or []):
@@ -644,6 +722,7 @@ def generate(rng, tier, pre=None):
         t2 = parse_tx(t1); t2["ins"][0]["scr"] = push(mk_sig(5, 7, 0x41))
         cases.append(spend_case(ser_tx(t2), 0, "9." + lock))
     cases.extend(conditional_sep_cases(rng, tier))
+    cases.extend(seq)
     return cases
 
 
